@@ -17,7 +17,7 @@ ASSUMPTIONS = ['in-memory asdf double', 'merger-tree (mainprog) columns are stor
 CHUNK = 1
 WORKERS = 16
 
-BOXVEL = [(1.0, 1.0), (32.0, 3200.0), (2000.0, 208774.9025637363), (500.0, 7.0)]
+BOXVEL = [(1.0, 1.0), (32.0, 3200.0), (2000.0, 208774.9025637363), (500, 7.0)]   # the last BoxSize is stored as an integer in the header
 REFV = [0.0, 1e-3, 0.25, 1.0]
 RADII = ('r10', 'r25', 'r33', 'r50', 'r67', 'r75', 'r90', 'r95', 'r98')
 
@@ -75,10 +75,11 @@ def worker_init():
     _ENV = catgen.Env()
 
 
-def build(bi, rot):
+def build(bi, rot, box=None, vel=None, nrows=65536):
     from vf import catgen
-    box, vel = BOXVEL[bi]
-    n = 65536
+    if box is None:
+        box, vel = BOXVEL[bi]
+    n = nrows
     cat = catgen.Catalog([[dict(nA=0, nB=0)] * 0], box=box, velz=vel)
     rows = np.arange(n)
     raw = catgen.fill_values(catgen.raw_layout(), rows)
@@ -157,6 +158,13 @@ def run(case):
         return run_orders(case)
     bi, rot, cleaned = case['bi'], case['rot'], case['cleaned']
     box, vel = BOXVEL[bi]
+    # decoys first: in the same process, a catalog with the SAME BoxSize but another VelZSpace_to_kms, and one with the same
+    # velocity factor but another BoxSize, are loaded (converted and not) before the catalog under test - nothing may carry over
+    for dbox, dvel in ((box, vel * 3 + 1), (float(box) * 2 + 1, vel)):
+        dcat, _, _ = build(bi, rot, box=dbox, vel=dvel, nrows=64)
+        dz, _ = _ENV.mount(dcat)
+        for conv_ in (True, False):
+            _ENV.load(dz, cleaned=cleaned, fields='all', convert_units=conv_)
     cat, raw, cl = build(bi, rot)
     zdir, _ = _ENV.mount(cat)
     conv = _ENV.load(zdir, cleaned=cleaned, fields='all', convert_units=True).halos
